@@ -48,7 +48,7 @@ var c10Seeds = []string{
 var c10Menu = []string{
 	"NATURAL", "UNION", "JOIN", "LEFT", "PARALLEL", "STRAIGHT_JOIN", "HASH_JOIN", "WITH", "RECURSIVE", "AS", "ON", "USING", "INTO",
 	"SELECT", "FROM", "WHERE", "GROUP", "BY", "ORDER", "LIMIT", "OFFSET", "DISTINCT", "EXISTS", "IN", "NOT", "AND", "NULL",
-	"[", "]", "(", ")", "`", "\"", "'", "<-", ",", ".", "*", "::", "=>", "t", "c", "1", "-1", "1.5", "'x'", "`t[5]`", "`items[9]`", "`<-`", "ASYNC.ELEMENTAT(items, -1)", "dual", ";",
+	"[", "]", "(", ")", "`", "\"", "'", "<-", ",", ".", "*", "::", "=>", "t", "c", "1", "-1", "1.5", "'x'", "`t[5]`", "`items[9]`", "`<-`", "ASYNC.ELEMENTAT(items, -1)", "ASYNC.HMID(ELEMENTAT(items, -1))", "`items::[x]`", "dual", ";",
 }
 
 // queries spelled out in the property's statement and other grammar corners
@@ -84,6 +84,22 @@ var c10Corners = []string{
 	"SELECT id, ASYNC.HPANIC(a) AS e FROM t",
 	"SELECT id, SPINASYNC.HPANIC(a) FROM t",
 	"SELECT id, HPANIC(a) AS e FROM t",
+	// the ARGUMENT of a goroutine-run call panics or fails (not the called function)
+	"SELECT id, ASYNC.CONCAT(IF(n, 'y', 'n')) AS x FROM t",
+	"SELECT id, SPINASYNC.CONCAT(IF(n, 'y', 'n')) FROM t",
+	"SELECT id, SPIN.HSPIN(ELEMENTAT(items, -1)) FROM t",
+	"SELECT id, ASYNC.HMID(ELEMENTAT(items, -1)) AS m FROM t",
+	"SELECT id, SPINASYNC.HMID(SUBSTR(b, 5, 1)) FROM t",
+	"SELECT id, ASYNC.HMID(HPANIC(a)) AS m FROM t",
+	"SELECT id, ASYNC.HMID(`items[9].q`) AS m FROM t",
+	"SELECT id, ASYNC.HMID((SELECT q FROM `items[9]`)) AS m FROM t",
+	// selectors that fail to parse in a later `::` stage, followed by ordinary queries in the same process
+	"SELECT `items::[x]` AS v FROM t",
+	"SELECT id FROM t",
+	"SELECT id FROM `t::[(0:1:x)]`",
+	"SELECT id FROM t WHERE a > 0",
+	"SELECT `o::p::{a|` AS v, `items::[(x:1)]::q` AS w FROM t",
+	"SELECT * FROM t x JOIN u y ON x.b = y.b",
 	"SELECT id FROM t WHERE HPANICSTR(a) > 0",
 	"SELECT id FROM t ORDER BY items",
 	"SELECT id FROM t ORDER BY o DESC, items",
@@ -326,7 +342,7 @@ func (p *c10) Describe(i int) any {
 	case "corner":
 		return map[string]any{"kind": "grammar corners named by the property and others", "queries": p.queries(i)}
 	case "mutate":
-		return map[string]any{"kind": "every single-token mutation at one position (delete, duplicate, replace by / insert each of a 52-token menu)", "seed": c10Seeds[c.seed], "position": c.pos}
+		return map[string]any{"kind": "every single-token mutation at one position (delete, duplicate, replace by / insert each of a 54-token menu)", "seed": c10Seeds[c.seed], "position": c.pos}
 	}
 	return map[string]any{"kind": fmt.Sprintf("every token string of length <= %d over a 30-token alphabet starting with %q", p.tokLen, c10TokenAlphabet[c.seed])}
 }
@@ -426,7 +442,7 @@ func (p *c10) RunCase(i int) *core.CaseResult {
 
 func (p *c10) Meta() core.Meta {
 	return core.Meta{
-		Rule: "corner cases: 128 hand-listed queries (NATURAL JOIN, chained UNION, self- / mutually- / recursively-referencing CTEs, unbalanced brackets under IdiomaticArrays, out-of-range indices in FROM paths, PARALLEL joins and ASYNC / SPIN / SPINASYNC calls whose evaluation fails or panics, DISTINCT over subqueries / back-references plus star, ORDER BY / GROUP BY of objects, SUBSTR / ELEMENTAT out of range, unsupported MySQL syntax families, scalars where arrays are expected) x all 8 option combinations x 3 documents, goroutine-bearing ones under every schedule with <= 1 preemption; mutation cases: every single-token mutation (delete, duplicate, replace by / insert each of 52 tokens) of 12 (thorough 24) seed queries covering the supported grammar x 5 option combinations x 2 documents; token cases: every token string of length <= 3 (thorough 4) over a 30-token alphabet x 5 option combinations. Oracle: no panic escapes New / Exec, no library goroutine panics, no deadlock (scheduler), no worker death (stack overflow, fatal error) and no hang (watchdog), each attributed to the journalled sub-case. non-trivial = some query of the case succeeded",
+		Rule: "corner cases: 142 hand-listed queries (NATURAL JOIN, chained UNION, self- / mutually- / recursively-referencing CTEs, unbalanced brackets under IdiomaticArrays, out-of-range indices in FROM paths, PARALLEL joins and ASYNC / SPIN / SPINASYNC calls whose evaluation fails or panics, DISTINCT over subqueries / back-references plus star, ORDER BY / GROUP BY of objects, SUBSTR / ELEMENTAT out of range, unsupported MySQL syntax families, scalars where arrays are expected) x all 8 option combinations x 3 documents, goroutine-bearing ones under every schedule with <= 1 preemption; mutation cases: every single-token mutation (delete, duplicate, replace by / insert each of 54 tokens) of 12 (thorough 24) seed queries covering the supported grammar x 5 option combinations x 2 documents; token cases: every token string of length <= 3 (thorough 4) over a 30-token alphabet x 5 option combinations. Oracle: no panic escapes New / Exec, no library goroutine panics, no deadlock (scheduler), no worker death (stack overflow, fatal error) and no hang (watchdog), each attributed to the journalled sub-case. non-trivial = some query of the case succeeded",
 		Assumptions: []string{"user-registered functions that panic with a value that is not an error are outside the property's quantifier; HPANIC panics with an error value, HPANICSTR with a runtime error", "debug.SetMaxStack(256 MiB) makes runaway recursion fail fast; the watchdog kills a worker without progress for 120 s"},
 		Bounds:      map[string]any{"corners": len(c10Corners), "seeds": len(c10Seeds), "menu": len(c10Menu), "token_alphabet": len(c10TokenAlphabet), "token_length": p.tokLen},
 		Exhaustive:  true,
